@@ -11,6 +11,9 @@ group names, targets, unknown names, sub-tasks and regex targets of delayed crea
       DOIT_CONFIG default_tasks on/off; the seam is `doit.cmd_run.Runner` (replaced by a stub that keeps the
       TaskDispatcher it is given): exit code 3, or what the runner would have been started with
       ==  enc_cmd (cmd_run_select ..)
+Task arguments: tasks may declare pos_arg and params (a bool short, a str short, a bool long option); command
+lines contain `<glob> <names..>`, `<pos_arg task> <values..>`, `<task> -f -v VAL <names..>`, unknown / stray
+option tokens, unknown names after globs (A1 also observes CmdParseError = [4]).
 The string functions are oracles: the harness evaluates '*' in s, fnmatch.fnmatch, split(':',1)[0], re.match,
 the '_regex_target_..' format and startswith on every string of the case and passes the tables to Coq.
 Encoding (list Z): strings are interned to ids (task names first, in task_list order);
@@ -23,7 +26,10 @@ with sub-tasks, optional group-level task_dep, create_after creators), executed 
 `DoitMain(ModuleTaskLoader(ns)).run(['run', ...])` with a fresh DB, a recording reporter and recording
 python-actions.  Checked against a closure computed from the definitions alone (no doit code):
 exit code (3 and NOTHING processed/executed for an unknown name), set of processed tasks == closure,
-executed == processed minus action-less tasks, start order of the selected tasks.
+executed == processed minus action-less tasks, start order of the selected tasks.  The command line is read by
+split_selection (documented behaviour): every element after a glob is selected or rejected; the tokens after an
+explicitly named pos_arg task are its values (checked against what its action received); a task's own options
+are consumed.
 """
 import fnmatch, io, os, re, sys
 import common
@@ -92,6 +98,10 @@ def fun2(name, ty, arms, default):
 # Part A: generation
 PATTERNS = ['*', 'g:*', 'a*', '*b*', 'zz*', '*:x', 'h:*', '[ab]*', '*.o', 'd*', '*:*']
 REGEXES = ['.*\\.o', 'q.*', 'd:.*', 'zz']
+# per-task options, within the domain of the option model of Select.v: exact spellings, str values
+PARAMS = [dict(name='flag', short='f', type=bool, default=False), dict(name='val', short='v', type=str, default=''),
+          dict(name='lng', long='lng', type=bool, default=False)]
+OPT_TOKENS = {'flag': ['-f'], 'val': ['-v', 'val1'], 'lng': ['--lng']}
 
 
 def gen_a(rng):
@@ -117,7 +127,12 @@ def gen_a(rng):
     defect = rng.choices(['none', 'dupname', 'baddep', 'badsetup', 'badcalc', 'duptarget'], weights=[80, 4, 4, 3, 3, 5])[0]
     for nm, kind, parent in specs:
         t = dict(name=nm, task_dep=[], post_dep=[], setup=[], calc_dep=[], file_dep=[], targets=[],
-                 has_subtask=(kind == 'group'), subtask_of=parent, loader=None)
+                 has_subtask=(kind == 'group'), subtask_of=parent, loader=None, pos_arg=None, params=[])
+        if kind in ('plain', 'sub'):
+            if rng.random() < 0.18:
+                t['pos_arg'] = 'files'
+            if rng.random() < 0.25:
+                t['params'] = rng.sample(PARAMS, rng.randrange(1, 4))
         if kind == 'delayed':
             t['loader'] = dict(executed=rng.choice([None, None] + names), regex=rng.choice([None, None] + REGEXES))
         else:
@@ -156,17 +171,33 @@ def gen_a(rng):
         have = [f for t in tasks for f in t['targets']]
         victim['targets'] = victim['targets'] + [rng.choice(have) if have else 'f0'] + ([] if have else ['f0'])
 
+    by_name = {t['name']: t for t in tasks}
+
     def element():
+        """one item of a command line: a name / pattern / target / unknown name, possibly followed by option tokens"""
         r = rng.random()
         if r < 0.40:
-            return rng.choice(names)
-        if r < 0.55:
-            return rng.choice(files)
-        if r < 0.75:
-            return rng.choice(PATTERNS + ['a?', '[ab]'])
-        return rng.choice(['zz', 'g:zz', 'h:x', 'd:7', 'e:x', 'd:7:8', 'zz:1', 'q.o', 'qq', ':x', 'd:', '_regex_target_zz'])
-    sel = [element() for _ in range(rng.choice([0, 1, 1, 2, 2, 3, 4]))]
-    default = None if rng.random() < 0.5 else [element() for _ in range(rng.choice([0, 1, 2, 3]))]
+            nm = rng.choice(names)
+            toks = [nm]
+            if by_name[nm]['params'] and rng.random() < 0.6:
+                for prm in rng.sample(by_name[nm]['params'], rng.randrange(1, len(by_name[nm]['params']) + 1)):
+                    toks += OPT_TOKENS[prm['name']]
+            return toks
+        if r < 0.52:
+            return [rng.choice(files)]
+        if r < 0.72:
+            return [rng.choice(PATTERNS + ['a?', '[ab]'])]
+        if r < 0.80:   # option tokens wherever they fall: valid, unknown, value missing
+            return rng.choice([['-f'], ['-v', 'val2'], ['--lng'], ['-z'], ['-v'], ['-f', '-v', 'b'], ['--zz']])
+        return [rng.choice(['zz', 'g:zz', 'h:x', 'd:7', 'e:x', 'd:7:8', 'zz:1', 'q.o', 'qq', ':x', 'd:', '_regex_target_zz'])]
+
+    def selection(k):
+        toks = [x for _ in range(k) for x in element()]
+        while toks and toks[0].startswith('-'):   # would be an option of `doit run` itself
+            toks.pop(0)
+        return toks
+    sel = selection(rng.choice([0, 1, 1, 2, 2, 3, 4]))
+    default = None if rng.random() < 0.5 else selection(rng.choice([0, 1, 2, 3]))
     return dict(tasks=tasks, sel=sel, sel_none=rng.random() < 0.12, default=default,
                 single=rng.random() < 0.4, auto=rng.random() < 0.3, defect=defect)
 
@@ -179,7 +210,8 @@ def build_tasks(case):
         if t['loader'] is not None:
             ld = DelayedLoader(lambda: [], executed=t['loader']['executed'], target_regex=t['loader']['regex'])
         T = Task(t['name'], None, file_dep=t['file_dep'], targets=t['targets'], task_dep=t['task_dep'],
-                 calc_dep=t['calc_dep'], setup=t['setup'], subtask_of=t['subtask_of'], has_subtask=t['has_subtask'], loader=ld)
+                 calc_dep=t['calc_dep'], setup=t['setup'], subtask_of=t['subtask_of'], has_subtask=t['has_subtask'], loader=ld,
+                 pos_arg=t.get('pos_arg'), params=[dict(p_) for p_ in t.get('params', [])])
         T.task_dep.extend(t['post_dep'])
         out.append(T)
     return out
@@ -195,10 +227,18 @@ def model_defs(case, task_list, I, sfx):
         ld = 'None'
         if T.loader:
             ld = '(Some (Build_loader %s %s))' % (opt(T.loader.task_dep, lambda s: str(I(s))), opt(T.loader.target_regex, lambda s: str(I('re:' + s))))
-        rows.append('(%d, Build_stask %s %s %s %s %s %s %s %s %s)' % (
+        opts = []
+        for prm in list(T.params) + list(T.creator_params):
+            takes = 'false' if prm.get('type', str) is bool else 'true'
+            if prm.get('short'):
+                opts.append('(%d, %s)' % (I('-' + prm['short']), takes))
+            if prm.get('long'):
+                opts.append('(%d, %s)' % (I('--' + prm['long']), takes))
+        rows.append('(%d, Build_stask %s %s %s %s %s %s %s %s %s %s %s)' % (
             I(T.name), nl(I(x) for x in T.task_dep), nl(I(x) for x in T.wild_dep), nl(I(x) for x in T.setup_tasks),
             nl(I(x) for x in list(T.calc_dep)), nl(I(x) for x in list(T.file_dep)), nl(I(x) for x in T.targets),
-            'true' if T.has_subtask else 'false', opt(T.subtask_of, lambda s: str(I(s))), ld))
+            'true' if T.has_subtask else 'false', opt(T.subtask_of, lambda s: str(I(s))), ld,
+            'false' if T.pos_arg is None else 'true', nl(opts)))
     sel_strings = list(case['sel']) + list(case['default'] or [])
     for s in sel_strings:
         I(s)
@@ -232,6 +272,7 @@ def model_defs(case, task_list, I, sfx):
         fun2('rm' + sfx, 'bool', rm, 'false'),
         fun2('rn' + sfx, 'name', rn, '9999'),
         fun1('ir' + sfx, 'bool', {I(s): 'true' for s in plain if s.startswith('_regex_target')}, 'false'),
+        fun1('io' + sfx, 'bool', {I(s): 'true' for s in plain if s.startswith('-')}, 'false'),
     ]
     return '\n'.join(defs)
 
@@ -248,7 +289,10 @@ def enc_control(tasks, targets, selected, I):
 
 def enc_exception(e, I):
     from doit.exceptions import InvalidDodoFile, InvalidTask, InvalidCommand
+    from doit.cmdparse import CmdParseError
     msg = str(e)
+    if isinstance(e, CmdParseError):
+        return [4]
     if isinstance(e, InvalidCommand):
         return [2, I(e.not_found)] if e.not_found is not None else [97]
     if isinstance(e, InvalidDodoFile):
@@ -273,12 +317,13 @@ def enc_exception(e, I):
 def run_a1(case, I):
     from doit.control import TaskControl
     from doit.exceptions import InvalidDodoFile, InvalidTask, InvalidCommand
+    from doit.cmdparse import CmdParseError
     sel = None if case['sel_none'] else list(case['sel'])
     try:
         tc = TaskControl(build_tasks(case), auto_delayed_regex=case['auto'])
         tc.process(sel)
         return enc_control(tc.tasks, tc.targets, tc.selected_tasks, I)
-    except (InvalidDodoFile, InvalidTask, InvalidCommand) as e:
+    except (InvalidDodoFile, InvalidTask, InvalidCommand, CmdParseError) as e:
         return enc_exception(e, I)
     except BaseException as e:   # noqa
         return [98]
@@ -348,7 +393,7 @@ def part_a(ctx, out):
             continue
         sfx = str(ci)
         defs = model_defs(case, task_list, I, sfx)
-        orac = 'hs%s mt%s bn%s rm%s rn%s ir%s' % ((sfx,) * 6)
+        orac = 'hs%s mt%s bn%s rm%s rn%s ir%s io%s' % ((sfx,) * 7)
         b = lambda x: 'true' if x else 'false'
         obs1 = run_a1(case, I)
         obs2 = run_a2(ctx, case, I, ci)
@@ -359,12 +404,22 @@ def part_a(ctx, out):
         # all strings were interned before the definitions were rendered?  (placeholders are pre-computed)
         cases.append(dict(defs=defs, model=m1, expected=obs1, desc=('A1', ci), case=case))
         cases.append(dict(model=m2, expected=obs2, desc=('A2', ci), case=case))
-        kind = {0: 'selected', 1: 'load-error', 2: 'not-found'}.get(obs1[0], 'other')
+        kind = {0: 'selected', 1: 'load-error', 2: 'not-found', 4: 'option-parse-error'}.get(obs1[0], 'other')
         out.count('A1:' + kind)
         out.count('A2:' + ({0: 'selected', 3: 'exit3'}.get(obs2[0], 'other')) + (':single' if case['single'] else '')
                   + (':default' if (not case['sel'] and case['default'] is not None) else ''))
         if any(t['loader'] for t in case['tasks']):
             out.count('A:with-delayed-creator')
+        eff = (case['sel'] or case['default'] or []) if not case['sel_none'] else case['sel']
+        byn = {t['name']: t for t in case['tasks']}
+        if any('*' in f for f in eff[:-1]):
+            out.count('A:elements-after-glob')
+            if any('*' in f and any(byn[n].get('pos_arg') or byn[n].get('params') for n in byn if fnmatch.fnmatch(n, f)) for f in eff[:-1]):
+                out.count('A:elements-after-glob-matching-pos_arg/params-task')
+        if any(f in byn and byn[f].get('pos_arg') for f in eff[:-1]):
+            out.count('A:elements-after-pos_arg-task')
+        if any(f.startswith('-') for f in eff):
+            out.count('A:option-tokens')
         if len(case['tasks']) >= 3 and (case['sel'] or case['default']):
             out.nontrivial.add(('A', ci, tuple(obs1), tuple(obs2)))
         if ci < 2:
@@ -423,9 +478,14 @@ def gen_b(rng, d):
 
     def mk(nm, kind, is_delayed_sub=False):
         cands = later(nm)
-        t = dict(kind=kind, task_dep=[], setup=[], file_dep=[], targets=[], actions=(kind in ('plain', 'sub', 'dsub')))
+        t = dict(kind=kind, task_dep=[], setup=[], file_dep=[], targets=[], actions=(kind in ('plain', 'sub', 'dsub')),
+                 pos_arg=False, params=[])
         if kind in ('group', 'delayed'):
             return t
+        if not is_delayed_sub:
+            t['pos_arg'] = rng.random() < 0.15
+            if rng.random() < 0.2:
+                t['params'] = rng.sample(['flag', 'val'], rng.choice([1, 2]))
         for _ in range(rng.choice([0, 0, 1, 1, 2])):
             if cands:
                 t['task_dep'].append(rng.choice(cands))
@@ -466,7 +526,7 @@ def gen_b(rng, d):
     if delayed:
         ex = rng.choice([None] + later('d'))
         defs['d'] = dict(kind='delayed', task_dep=[], setup=[], file_dep=[], targets=[], actions=False, executed=ex,
-                         regex=None, subs=[])
+                         regex=None, subs=[], pos_arg=False, params=[])
         for kind, nm, subs in blocks:
             if kind == 'delayed':
                 for s in subs:
@@ -484,19 +544,61 @@ def gen_b(rng, d):
     return dict(dir=d, blocks=blocks, order=order, defs=defs, dsubs=dsubs, default=default)
 
 
+PARAM_SRC = {'flag': "{'name': 'flag', 'short': 'f', 'type': bool, 'default': False}",
+             'val': "{'name': 'val', 'short': 'v', 'type': str, 'default': ''}"}
+PARAM_TOK = {'flag': ('-f', False), 'val': ('-v', True)}
+
+
+def split_selection(spec, sel):
+    """the documented reading of a command line, from the definitions alone: a pattern is one element and
+    what follows it are further elements; after a task named for the first time come its options, and if it
+    declares pos_arg everything after them are its positional values.
+    Returns dict(elems=[...], pos={task: [values]}) | dict(error='option') | dict(ambiguous=True)"""
+    defs, order = spec['defs'], spec['order']
+    elems, pos, seen, i = [], {}, set(), 0
+    while i < len(sel):
+        f = sel[i]; i += 1
+        elems.append(f)
+        if '*' in f:
+            seen |= set(fnmatch.filter(order, f))
+            continue
+        if f not in defs:
+            continue
+        t = defs[f]
+        if f in seen:
+            if t.get('pos_arg') or (i < len(sel) and sel[i].startswith('-')):
+                return dict(ambiguous=True)    # arguments for a task mentioned before: not generated
+            continue
+        seen.add(f)
+        toks = dict(PARAM_TOK[x] for x in t.get('params', []))
+        while i < len(sel) and sel[i].startswith('-'):
+            if sel[i] not in toks:
+                return dict(error='option')
+            i += 2 if toks[sel[i]] else 1
+            if i > len(sel):
+                return dict(error='option')
+        if t.get('pos_arg'):
+            pos[f] = list(sel[i:]); i = len(sel)
+    return dict(elems=elems, pos=pos)
+
+
 def render_b(spec):
     """the dodo module as source text"""
     L = ['from doit import create_after', '']
 
     def fields(nm, t):
         parts = []
-        if t['actions']:
+        if t['actions'] and t.get('pos_arg'):
+            parts.append("'actions': [RECP(%r)], 'pos_arg': 'files'" % nm)
+        elif t['actions']:
             parts.append("'actions': [(REC, [%r])]" % nm)
         else:
             parts.append("'actions': None")
         for k in ('task_dep', 'setup', 'file_dep', 'targets'):
             if t[k]:
                 parts.append('%r: %r' % (k, t[k]))
+        if t.get('params'):
+            parts.append("'params': [%s]" % ', '.join(PARAM_SRC[x] for x in t['params']))
         return ', '.join(parts)
     for kind, nm, subs in spec['blocks']:
         t = spec['defs'][nm]
@@ -555,11 +657,16 @@ def oracle_b(spec, sel, single):
             acc.add(x)
             todo += deps(x, with_task_dep=(x not in cleared))
         return acc
+    pos = {}
     if sel is None:
         resolved = list(order)
     else:
+        sp = split_selection(spec, sel)
+        if 'error' in sp:
+            return dict(rc=3, unknown='<task option>', delayed=False)
+        pos = sp['pos']
         resolved = []
-        for f in sel:
+        for f in sp['elems']:
             if '*' in f:
                 resolved += fnmatch.filter(order, f)
             elif f in defs:
@@ -581,7 +688,7 @@ def oracle_b(spec, sel, single):
         closure(sorted(members), acc, cleared=members)
     else:
         closure(resolved, acc)
-    return dict(rc=0, processed=acc, resolved=resolved, alld=alld, deps=deps, closure=closure)
+    return dict(rc=0, pos=pos, processed=acc, resolved=resolved, alld=alld, deps=deps, closure=closure)
 
 
 def input_shape(spec, sel, single):
@@ -608,6 +715,9 @@ def input_shape(spec, sel, single):
         return 'repeated-name-drops-rest'
     if single and any(t['kind'] == 'group' and t['task_dep'] for t in defs.values()):
         return 'single-group-with-task-dep'
+    for i, f in enumerate(sel[:-1]):
+        if '*' in f and any(defs[n].get('pos_arg') or defs[n].get('params') for n in fnmatch.filter(order, f)):
+            return 'elements-after-glob'      # a pattern matching a task that takes arguments, followed by more elements
     return None
 
 
@@ -615,9 +725,15 @@ def run_b(ctx, spec, argv, idx):
     from doit.doit_cmd import DoitMain
     from doit.cmd_base import ModuleTaskLoader
     d = spec['dir']
-    executed, created = [], []
+    executed, created, posval = [], [], {}
     RecReporter.log = []
-    ns = {'REC': lambda nm: (executed.append(nm) or True), 'CREATED': created}
+
+    def recp(nm):
+        def act(files):
+            executed.append(nm)
+            posval[nm] = files
+        return act
+    ns = {'REC': lambda nm: (executed.append(nm) or True), 'RECP': recp, 'CREATED': created}
     src = render_b(spec)
     path = os.path.join(d, 'dodo_%d.py' % idx)
     with open(path, 'w') as fh:   # the loader orders task creators by inspect.getsourcelines
@@ -636,11 +752,12 @@ def run_b(ctx, spec, argv, idx):
             rc = DoitMain(ModuleTaskLoader(ns), config_filenames=()).run(argv)
         except BaseException as e:   # noqa
             rc = 98
-    return dict(rc=rc, log=list(RecReporter.log), executed=executed, created=created, stderr=q.err.getvalue()[-400:], src=src)
+    return dict(rc=rc, log=list(RecReporter.log), executed=executed, created=created, posval=posval, stderr=q.err.getvalue()[-400:], src=src)
 
 
 def T(kind='plain', **kw):
-    t = dict(kind=kind, task_dep=[], setup=[], file_dep=[], targets=[], actions=(kind in ('plain', 'sub', 'dsub')))
+    t = dict(kind=kind, task_dep=[], setup=[], file_dep=[], targets=[], actions=(kind in ('plain', 'sub', 'dsub')),
+             pos_arg=False, params=[])
     t.update(kw)
     return t
 
@@ -662,7 +779,15 @@ def directed_b(d):
     grp = lambda: spec([['plain', 'a', []], ['group', 'g', ['x']], ['group', 'h', ['y']]],
                        {'a': T(), 'g': T('group', subs=['g:x'], task_dep=['h']), 'g:x': T('sub', task_dep=['a']),
                         'h': T('group', subs=['h:y']), 'h:y': T('sub', task_dep=['a'])})
+    lint = lambda: spec([['plain', 'lint_files', []], ['plain', 'lint_docs', []], ['plain', 'build', []], ['plain', 'deploy', []]],
+                        {'lint_files': T(pos_arg=True), 'lint_docs': T(), 'build': T(params=['flag', 'val']), 'deploy': T(task_dep=['build'])})
     return [
+        ('glob-then-names', lint(), ['lint_*', 'deploy'], False),
+        ('glob-then-unknown', lint(), ['lint_*', 'deploy', 'nosuch'], False),
+        ('glob-then-option-token', lint(), ['b*', '-f', 'deploy'], False),
+        ('pos-arg-values', lint(), ['lint_docs', 'lint_files', 'a.py', 'deploy'], False),
+        ('task-options-then-names', lint(), ['build', '-f', '-v', 'x', 'lint_docs'], False),
+        ('task-unknown-option', lint(), ['build', '-z', 'lint_docs'], False),
         ('names-in-order', abc(), ['b', 'c'], False),
         ('unknown-name', abc(), ['a', 'zz'], False),
         ('single-one-task', abc(), ['c'], True),
@@ -725,6 +850,10 @@ def check_b(ctx, out, spec, sel, single, ci, label=None):
     acts = set(nm for nm in processed if exp['alld'][nm]['actions'])
     if set(res['executed']) != acts or len(res['executed']) != len(acts):
         return viol('executed actions %s differ from the tasks with actions in the closure %s' % (sorted(res['executed']), sorted(acts)), 'executed-set')
+    for p_, vals in exp['pos'].items():
+        got = res['posval'].get(p_)
+        if got is None or list(got) != vals:
+            return viol('task %s declares pos_arg and was named with the values %s, its action received %r' % (p_, vals, got), 'pos-arg-values')
     # order: a selected task listed earlier starts first unless the later one is needed by it or by one before it
     rs = []
     for s in exp['resolved']:
@@ -755,18 +884,29 @@ def random_selection(rng, spec):
     def element():
         r = rng.random()
         if r < 0.45:
-            return rng.choice(order)
+            nm = rng.choice(order)
+            toks = [nm]
+            if defs[nm].get('params') and rng.random() < 0.6:
+                for x in rng.sample(defs[nm]['params'], rng.randrange(1, len(defs[nm]['params']) + 1)):
+                    toks += ['-f'] if x == 'flag' else ['-v', 'value']
+            elif rng.random() < 0.04:
+                toks.append('-z')
+            return toks
         if r < 0.58 and targets:
-            return rng.choice(targets)
-        if r < 0.74:
+            return [rng.choice(targets)]
+        if r < 0.76:
             pats = ['*', 'g:*', 't*', '*:x', 'zz*', 't[12]', 'h:*', 't[12]*', 'k*']
             if dsubs:   # a pattern must not depend on whether the delayed sub-tasks exist yet
                 pats = [p for p in pats if not fnmatch.filter(list(dsubs), p)]
-            return rng.choice(pats)
+            return [rng.choice(pats)]
         if r < 0.88 and dsubs:
-            return rng.choice(sorted(dsubs)[:2] + (dtargets or ['d']) + ['d:7', 'd:7'])
-        return rng.choice(['zz', 'g:zz', 't1:x', os.path.join(d, 'nofile.txt'), 't0 '])
-    return [element() for _ in range(rng.choice([0, 1, 1, 2, 2, 3]))]
+            return [rng.choice(sorted(dsubs)[:2] + (dtargets or ['d']) + ['d:7', 'd:7'])]
+        return [rng.choice(['zz', 'g:zz', 't1:x', os.path.join(d, 'nofile.txt'), 't0 '])]
+    for _ in range(8):
+        sel = [x for _ in range(rng.choice([0, 1, 1, 2, 2, 3, 4])) for x in element()]
+        if 'ambiguous' not in split_selection(spec, sel):
+            return sel
+    return []
 
 
 def part_b(ctx, out):
@@ -796,8 +936,8 @@ def run(ctx):
         out.mismatches.append(dict(case=dict(which=c['desc'], input=c['case']), impl=c['expected'], model=m))
     out.assumptions = ['string functions ("*" in s, fnmatch.fnmatch, split, re.match, str.format, startswith) are oracles tabulated by the harness',
                        'iteration order of the Python sets file_dep / calc_dep is an input (read off the real Task objects)',
-                       'per-task command line options (init_options, pos_arg) are out of scope: selections hold names, patterns, targets only '
-                       '(Task.init_options then hands the rest of the command line back untouched)',
+                       'per-task arguments: which tokens are consumed (pos_arg, option tokens in exact spelling -c / --word, str values) is '
+                       'modelled; the parsed VALUES, option clusters, --opt=value, "--" and "-" are not',
                        'C12_serial_order is not proved; the start order of selected tasks is checked on the real runs of Part B only',
                        'the run after a delayed creator executed (tasks replaced by the created ones) is covered by Part B only, not by the model']
     out.extra['trusted_base'] = ['rendering of real Task attributes into Model/Select.v tables and of exceptions into the error enum (harness/c12.py)',
@@ -821,7 +961,11 @@ def replay(ctx, payload):
         fh.write(src)
     executed = []
     RecReporter.log = []
-    ns = {'REC': lambda nm: (executed.append(nm) or True), 'CREATED': []}
+    def recp(nm):
+        def act(files):
+            executed.append(nm + repr(files))
+        return act
+    ns = {'REC': lambda nm: (executed.append(nm) or True), 'RECP': recp, 'CREATED': []}
     exec(compile(src, path, 'exec'), ns)
     ns['DOIT_CONFIG'] = {'dep_file': os.path.join(d, 'db'), 'backend': 'json', 'reporter': RecReporter, 'verbosity': 0}
     if case.get('default_tasks') is not None:
